@@ -267,6 +267,21 @@ class SymbolicExpression(Generic[T], ABC):
         """
         ...
 
+    def _evaluate_as_my_value_(self, expression: SymbolicExpression, bindings: Dict[int, HashedValue],
+                               yield_when_false: bool = False) -> List[Dict[int, HashedValue]]:
+        """
+        The bindings of an expression that this node uses as a VALUE (what it selects, an argument, the collection it
+        concatenates, the values it quantifies over) under the given row. The same expression object can stand in
+        condition position somewhere else (where it was false under this row and another side of a disjunction made the
+        row): here it is evaluated as a child of this node, and handed back as it was found before the conditions go on.
+        """
+        previous_parent = expression._eval_parent_
+        expression._eval_parent_ = self
+        try:
+            return list(expression._evaluate__(bindings, yield_when_false=yield_when_false))
+        finally:
+            expression._eval_parent_ = previous_parent
+
     def _is_duplicate_output_(self, output: Dict[int, HashedValue]) -> bool:
         required_vars = self._parent_._required_variables_from_child_(self, when_true=not self._is_false_)
         if not required_vars:
@@ -721,21 +736,6 @@ class QueryObjectDescriptor(CanBehaveLikeAVariable[T], ABC):
                 else:
                     yield v
 
-    def _evaluate_selected_(self, var: CanBehaveLikeAVariable, bindings: Dict[int, HashedValue],
-                            yield_when_false: bool = False) -> List[Dict[int, HashedValue]]:
-        """
-        The bindings of a selected expression under the given row. What is selected is a value, also when the same
-        expression object stands in condition position somewhere in the condition (where it was false under this row and
-        another side of a disjunction was true): it is evaluated as the selection of this descriptor, and handed back as
-        it was found before the conditions go on.
-        """
-        previous_parent = var._eval_parent_
-        var._eval_parent_ = self
-        try:
-            return list(var._evaluate__(bindings, yield_when_false=yield_when_false))
-        finally:
-            var._eval_parent_ = previous_parent
-
     def _bind_selected_variables_(self, bindings: Dict[int, HashedValue],
                                   selected_vars: List[CanBehaveLikeAVariable]) -> Iterable[Dict[int, HashedValue]]:
         """
@@ -748,7 +748,7 @@ class QueryObjectDescriptor(CanBehaveLikeAVariable[T], ABC):
         var, remaining_vars = selected_vars[0], selected_vars[1:]
         if _takes_its_value_from_a_non_solution_(var, bindings):
             return
-        for var_bindings in self._evaluate_selected_(var, copy(bindings)):
+        for var_bindings in self._evaluate_as_my_value_(var, copy(bindings)):
             new_bindings = copy(var_bindings)
             new_bindings.update(bindings)
             new_bindings[var._id_] = var_bindings[var._id_]
@@ -819,7 +819,7 @@ class SetOf(QueryObjectDescriptor[T]):
         for sol in sol_gen:
             sol.update(sources)
             if self.selected_variables:
-                var_val = {var._id_: self._evaluate_selected_(var, sol, self._yield_when_false_)[0][var._id_]
+                var_val = {var._id_: self._evaluate_as_my_value_(var, sol, self._yield_when_false_)[0][var._id_]
                            for var in self.selected_variables if var._id_ in sol}
                 sol.update(var_val)
                 yield sol
@@ -849,7 +849,7 @@ class Entity(QueryObjectDescriptor[T]):
             sol.update(sources)
             if self._yield_when_false_ or not self._is_false_:
                 if self.selected_variable:
-                    for var_val in self._evaluate_selected_(self.selected_variable, sol):
+                    for var_val in self._evaluate_as_my_value_(self.selected_variable, sol):
                         var_val.update(sol)
                         yield var_val
                 else:
@@ -1113,7 +1113,7 @@ class Variable(CanBehaveLikeAVariable[T]):
         (name, var), remaining_vars = child_vars[0], child_vars[1:]
         if _takes_its_value_from_a_non_solution_(var, bindings):
             return
-        for var_bindings in var._evaluate__(copy(bindings)):
+        for var_bindings in self._evaluate_as_my_value_(var, copy(bindings)):
             new_bindings = copy(var_bindings)
             new_bindings.update(bindings)
             new_bindings[var._id_] = var_bindings[var._id_]
@@ -1497,7 +1497,7 @@ class Concatenate(CanBehaveLikeAVariable[T]):
             return
         # The concatenated value exists (as an empty list) even when there is nothing to concatenate.
         concatenated = []
-        for child_v in self._child_._evaluate__(sources):
+        for child_v in self._evaluate_as_my_value_(self._child_, sources):
             child_v_unwrapped = child_v[self._child_._id_].value
             if not is_iterable(child_v_unwrapped):
                 child_v_unwrapped = [child_v_unwrapped]
@@ -1753,7 +1753,7 @@ class ForAll(BinaryOperator):
                 return
 
         holds = False
-        for var_val in self.variable._evaluate__(copy(sources)):
+        for var_val in self._evaluate_as_my_value_(self.variable, copy(sources)):
             ctx = {**sources, **var_val}
             holds = any(not self.condition._is_false_ for _ in self.condition._evaluate__(ctx))
             if not holds:
